@@ -174,3 +174,16 @@ prop("C17", quick={"runs": 12000}, thorough={"runs": 100000000, "budget_s": 600}
      rules=["C17.R1 accepted calls never overlap", "C17.R2 consecutive accepts >= SkipInterval apart", "C17.R3 every callback exactly once in order, synchronously",
             "C17.R4 rejected: no callback, ErrAlreadyInvalidated", "C17.R5 no callbacks: ErrNothingToInvalidate"],
      probes=["rejected_call", "two_accepted_calls", "overlapping_invalidate_calls"])
+prop("C16", quick={"runs": 12000}, thorough={"runs": 100000000, "budget_s": 900}, race=True,
+     rule="Programs: every unordered pair of backend operations (write, born-expired write, read, delete, ExpireAll, DeleteAll, Len, Walk, Load, Store, "
+     "Dump, Restore, a sleep that lets a janitor cleanup/eviction cycle run) on a shared key, on the three backends and the three eviction strategies, "
+     "two schedules each (first 2106 runs); then random concurrent workloads of the other engines (backend mixes with janitor, Failover Gets, "
+     "InvalidationIndex AddLabels/AddCache/InvalidateByLabels, Invalidator). The instrumented library reports every struct-field and map access and "
+     "every synchronisation event to a vector-clock detector; harness hand-offs create no happens-before edge. Non-trivial: >= 2 client tasks; "
+     "distinct = distinct (scenario, schedule signature).",
+     rules=["C16.R1 unordered conflicting accesses to a struct field", "C16.R2 unordered conflicting operations on a Go map (runtime may throw 'concurrent map read and map write')"],
+     probes=[],
+     level_note="Trusted base as for the other checks, plus the detector's model of synchronisation: mutex/RWMutex (release->acquire), sync.Map operations "
+     "(acquire+release on the map: coarser than reality, can only hide races), sync/atomic (acquire+release on the address), close->receive on channels, "
+     "goroutine start. Not tracked: slice elements, captured locals, accesses inside the standard library. A reported pair is a race in every real "
+     "execution in which both accesses happen.")
